@@ -358,9 +358,15 @@ def gen_scope2(rng):
     items = []
     if rng.chance(0.35):
         items.append(('bankdef', 'bk', dict(bits=rng.choice(['8', '8', '16']), addr=rng.choice(['0', '0x10']), size='0x100', outp='0', fill=False)))
+    lit = lambda: str(rng.below(100))
+    # a GLOBAL constant with a literal value named like the locals (seed C08-7: a static analysis that looks `.v` up in the
+    # global context at level 0 takes this one for it).  Declared first, so that it opens no scope the locals would fall into.
+    shadow = rng.chance(0.5)
+    if shadow:
+        for nm in rng.choice([['v'], ['v', 'w'], ['w']]):
+            items.append(('const', nm, lit(), 0))
     k = rng.range(1, 4)
     items.append(('res', rng.choice(['fwd - fwd + %d', '(fwd > 0 ? %d : 0)']) % k))
-    lit = lambda: str(rng.below(100))
     dep = lambda: rng.choice(['$', '$ + 1', 'a', 'a + 2', 'fwd - 1'])
     first_static = rng.chance(0.5)
 
@@ -383,8 +389,15 @@ def gen_scope2(rng):
     for pi, par in enumerate(parents):
         items.append(par)
         stat = first_static if pi == 0 else not first_static
-        items.append(('const', 'v', lit() if stat else dep(), 1))
-        items.append(('const', 'w', rng.choice([lit(), dep()]), 1))
+        # the address-dependent local is a constant or (behind the shrinking prefix: first-pass address wrong) a local LABEL
+        if not stat and rng.chance(0.4):
+            items.append(('label', 'v', 1))
+        else:
+            items.append(('const', 'v', lit() if stat else dep(), 1))
+        if rng.chance(0.25):
+            items.append(('label', 'w', 1))
+        else:
+            items.append(('const', 'w', rng.choice([lit(), dep()]), 1))
         for _ in range(rng.range(1, 3)):
             items.append(use())
     items.append(('label', 'fwd', 0))
